@@ -31,6 +31,12 @@ GEN.append("~V\nVERS. 2.0:\nWRAP. NO:\n~W\nSTRT.M 1:\nSTOP.M 120:\nSTEP.M 1:\nNU
            + "".join("C%d.:\n" % j for j in range(1, 45)) + "~A\n" + "".join(" ".join(str(r + j * 0.5) for j in range(45)) + "\n" for r in range(1, 121)))
 GEN.append("~V\nVERS. 2.0:\nWRAP. NO:\n~W\nSTRT.M 1:\nSTOP.M 2:\nSTEP.M 1:\nNULL. -999.25:\n~C\nDEPT.M:\n" + "GR.:\n" * 12 + "~P\n" + "RUN. 1: r\n" * 11
            + "~A\n1 " + " ".join(str(j) for j in range(12)) + "\n2 " + " ".join(str(j + 0.5) for j in range(12)) + "\n")
+# tall data blocks: row counts at and around the block sizes a buffered writer or reader might use (3 and 17 curves)
+for _r in (256, 257, 1000, 1001, 2003, 2048, 4097):
+    for _c in (3, 17):
+        GEN.append("~V\nVERS. 2.0:\nWRAP. NO:\n~W\nSTRT.M 1:\nSTOP.M %d:\nSTEP.M 1:\nNULL. -999.25:\n~C\nDEPT.M:\n" % _r
+                   + "".join("C%d.:\n" % j for j in range(1, _c)) + "~A\n"
+                   + "".join(" ".join(str(r + j * 0.25) for j in range(_c)) + "\n" for r in range(1, _r + 1)))
 OPTS = [{}, {"version": 1.2}, {"version": 2.0, "wrap": True}, {"fmt": "%.3f"}, {"fmt": "%.10g", "len_numeric_field": 25},
         {"version": 1.2, "wrap": True, "data_width": 40}, {"mnemonics_header": True}, {"wrap": False, "spacer": "\t"}]
 
@@ -64,7 +70,7 @@ def run(ctx):
     sources = [("gen%d" % i, t) for i, t in enumerate(GEN)]
     corpus = list(corpus_texts())
     if not thorough:
-        corpus = corpus[::3]
+        corpus = [x for i, x in enumerate(corpus) if i % 3 == 0 or "DLM" in x[1][:600].upper() or '"' in x[1]]
     sources += [(fn.replace(core.REPO, ""), t) for fn, t in corpus]
     for name, t in list(sources):
         for k in range(3 if thorough else 1):
